@@ -11,6 +11,7 @@ trees; prefix rule: every top-level node of strict(D) appears unchanged and in
 order at the start of tolerant(D + closer + garbage), except that a final chars
 node of D may be extended by following characters.
 """
+import json
 from ..shard import rng_for
 from .. import work
 from ..gen import soup
@@ -60,19 +61,20 @@ def floors(tier):
     return {'evaluations': 40000, 'distinct_nontrivial': 15000, 'tolerant_parses': 40000,
             'strict_equal_compared': 10000, 'prefix_rule_checked': 8000, 'recovery_exercised': 15000,
             'text_retention_checked': 20000, 'histkeys:truncation_tail': 9,
-            'custom_context_soups': 500, 'parser_class_context_soups': 1000}
+            'custom_context_soups': 500, 'parser_class_context_soups': 1000,
+            'parses_from_configured_state': 2000, 'histkeys:start_state': 17}
 
 
 def setup(rec):
     budget.install()
 
 
-def tolerant_parse(s, ctx, rec):
+def tolerant_parse(s, ctx, rec, psopts=None):
     """('ok', nodes) | ('exc', e) | ('budget', msg) | ('watchdog', msg)"""
     budget.begin(budget.limit_for(s))
     try:
         with budget.watchdog(20):
-            nl = parse(s, ctx=ctx, tolerant=True)
+            nl = parse(s, ctx=ctx, tolerant=True, psopts=psopts)
         return 'ok', nl
     except budget.StepBudgetExceeded as e:
         return 'budget', str(e)
@@ -96,7 +98,11 @@ def check_case(case, rec):
     s = case['s']
     ctx = work.ctx_for(case.get('ctx'))
     rec.monitor('tolerant_parses')
-    what, val = tolerant_parse(s, ctx, rec)
+    psopts = case.get('psopts')
+    if psopts:
+        rec.monitor('parses_from_configured_state')
+        rec.hist('start_state', json.dumps(psopts, sort_keys=True))
+    what, val = tolerant_parse(s, ctx, rec, psopts)
     if what == 'exc':
         import traceback
         tb = traceback.extract_tb(val.__traceback__)
@@ -120,7 +126,7 @@ def check_case(case, rec):
         return
     # strict comparison
     try:
-        snl = parse(s, ctx=ctx, tolerant=False)
+        snl = parse(s, ctx=ctx, tolerant=False, psopts=psopts)
         strict_ok = True
     except LatexWalkerParseError:
         strict_ok = False
@@ -226,6 +232,10 @@ def run_shard(desc, rec):
             rec.case()
             rec.monitor('parser_class_context_soups')
             check_case({'s': s, 'ctx': {'vocab': 'nlargs'}}, rec)
+        # the walker started from a non-default parsing state (every switch of ParsingState)
+        for i, s in enumerate(work.soups(rng, max(400, desc['count'] // 3))):
+            rec.case()
+            check_case({'s': s, 'psopts': work.PS_CONFIGS[i % len(work.PS_CONFIGS)]}, rec)
     elif kind == 'truncate':
         from ..gen import doc as D
         tails = ['', '\\', '}', '$', '\\begin', '{', ']', '\\end{x}', '%']
